@@ -411,18 +411,22 @@ func c20GenFile(r *rand.Rand, startOff int64, sizeClass, malformed int) *c20Buil
 	case 4: // medium: up to a few hundred KB
 		nseg := 2 + r.IntN(30)
 		pick := c20LenPicker(r, r.IntN(5))
-		for i := 0; i < nseg; i++ {
+		for i := 0; i < nseg && b.bytes < 300_000; i++ {
 			b.addJ(r, 1+r.IntN(30), pick())
 		}
 	default: // large: more than one 1.6 MB window
 		total := bufferSize + r.IntN(bufferSize/2)
-		switch r.IntN(4) {
-		case 0:
+		switch r.IntN(8) {
+		case 0, 1:
 			total = bufferSize + r.IntN(3*maxEntrySize) - maxEntrySize
-		case 1:
-			total = 2*bufferSize + r.IntN(4*bufferSize)
-		case 2:
-			total = 4*bufferSize + r.IntN(4*bufferSize)
+		case 2, 3:
+			total = 2*bufferSize + r.IntN(bufferSize)
+		case 4:
+			total = 3*bufferSize + r.IntN(bufferSize)
+		case 5:
+			if vutil.Thorough() {
+				total = 4*bufferSize + r.IntN(4*bufferSize)
+			}
 		}
 		class := r.IntN(5)
 		pick := c20LenPicker(r, class)
@@ -609,7 +613,7 @@ func c20Gen(r *rand.Rand, emit vutil.Emit) {
 			}
 			for i, t := range c20Targets(r, allOffs, budget) {
 				emit("C20.seek", strconv.FormatInt(t, 10))
-				if i%7 == 3 {
+				if i%7 == 3 && (class < 5 || i < 20) {
 					emit("C20.next", vutil.Itoa(big))
 				} else {
 					emit("C20.next", vutil.Itoa(chunk()))
@@ -631,7 +635,7 @@ func c20Gen(r *rand.Rand, emit vutil.Emit) {
 				}
 				for i, t := range c20Targets(r, b.offs, budget) {
 					emit("C20.fseek", ks, strconv.FormatInt(t, 10))
-					if i%7 == 3 {
+					if i%7 == 3 && (class < 5 || i < 20) {
 						emit("C20.fnext", ks, vutil.Itoa(len(b.offs)+2))
 					} else {
 						emit("C20.fnext", ks, vutil.Itoa(chunk()))
